@@ -3,8 +3,10 @@ import os
 from vlib import Case, Stream, BUILD, model_cmd
 
 ID = "C10"
-LEAN_MODULES = ["HgVerif.Props.C10"]
-THEOREMS = [
+LEAN_MODULES = ["HgVerif.Props.C10", "HgVerif.Model.Tie2", "HgVerif.Model.Extracted"]
+USES_EXTRACT = True
+THEOREMS = ["HgVerif.Tie.tie_mapDrainDue", "HgVerif.Tie.tie_mapChildDue", "HgVerif.Tie.tie_mapChildFuture",
+    
     "HgVerif.MapNode.map_no_lost_child_wakeup",
     "HgVerif.MapNode.map_due_child_is_candidate",
     "HgVerif.MapNode.map_wakeup_honoured",
